@@ -121,6 +121,11 @@ BadSpellings ==
 \cup {[kind |-> k, d |-> u] : k \in {"str", "int"}, u \in SeqsOver(1..3, 1) \cup SeqsOver(1..3, 3) \cup SeqsOver(1..2, 5)}
 \cup {[kind |-> "std4", d |-> u] : u \in SeqsOver(1..3, 3) \cup SeqsOver(1..2, 5)}   \* wrong number of arguments
 \cup {[kind |-> "voigt2", d |-> u] : u \in SeqsOver(1..3, 3)}
+\* two arguments whose DIGITS, written one after another, read like a four-index spelling (11,12 / 1,112 / 111,2): each argument is an
+\* out-of-range Voigt index
+\cup {[kind |-> "voigt2", d |-> <<10 * i + j, 10 * k + l>>] : i \in I3, j \in I3, k \in I3, l \in I3}
+\cup {[kind |-> "voigt2", d |-> <<i, 100 * j + 10 * k + l>>] : i \in I3, j \in I3, k \in I3, l \in I3}
+\cup {[kind |-> "voigt2", d |-> <<100 * i + 10 * j + k, l>>] : i \in I3, j \in I3, k \in I3, l \in I3}
 
 BadStrainSpellings ==
      {[kind |-> "e_std2",  d |-> p] : p \in {u \in SeqsOver(0..4, 2) : \E n \in 1..2 : u[n] \notin I3}}
